@@ -250,14 +250,14 @@ class DiagAnalysis:
                                                                 ts += self.prog.by_key.get(y["fn"], [])
         return ts
 
-    def covered_call(self, f, call, mode, errs):
+    def covered_call(self, f, call, mode, errs, ignore=frozenset()):
         """Does a failure of this call count as diagnosed ('E'), error-set ('S'), or nothing (None)?"""
         ts = self.callee_targets(f, call)
         if not ts:
             return None
         res = "E"
         for t in ts:
-            ok, _ = self.classify(t, "diag")
+            ok, _ = self.classify(t, "diag", ignore)
             if ok:
                 continue
             ok2, _ = self.classify(t, "errset")
@@ -279,23 +279,44 @@ class DiagAnalysis:
                     return True
         return False
 
-    def classify(self, f, mode):
-        """mode 'diag': every failure point preceded by a diagnostic; 'errset': diagnostic or error string set."""
-        key = (f.uid, mode)
+    def classify(self, f, mode, ignore=frozenset()):
+        """mode 'diag': every failure point preceded by a diagnostic; 'errset': diagnostic or error string set.
+        ignore: status values of f that the caller is known not to treat as its result (a sentinel such as
+        "keep going" that a dominating comparison excludes before the value is returned further up)."""
+        key = (f.uid, mode, ignore)
         if key in self.memo:
             return self.memo[key]
         self.memo[key] = (True, "assumed (recursion)")
-        res = self._classify(f, mode)
+        res = self._classify(f, mode, ignore)
         self.memo[key] = res
         return res
 
-    def failure_points(self, f, kind):
+    def _excluded_values(self, f, d):
+        """Constants c such that every `return <var d>` of f is dominated by the fact d != c."""
+        from .flow import Guards
+        g = Guards(f)
+        common = None
+        for n in f.walk():
+            if n.get("k") == "ReturnStmt" and n.get("c"):
+                e = strip_all(n["c"][0])
+                if e is not None and e.get("k") == "DeclRefExpr" and e.get("d") == d:
+                    here = set()
+                    for l, rel, rr in (g.cmps(n) or []):
+                        ls = strip_all(l)
+                        if rel == "!=" and ls is not None and ls.get("k") == "DeclRefExpr" and ls.get("d") == d and folded(rr) is not None:
+                            here.add(folded(rr))
+                    common = here if common is None else (common & here)
+        return frozenset(common or ())
+
+    def failure_points(self, f, kind, ignore=frozenset()):
         """[(node, how)] where how is 'fail' | ('call', node) | ('param', i) | 'unknown'."""
         pts = []
         ret_vars = set()
         for n in f.walk():
             if n.get("k") == "ReturnStmt":
                 c = self.classify_return(f, n, kind)
+                if c == "fail" and ignore and n.get("c") and folded(n["c"][0]) in ignore:
+                    continue
                 if c in ("ok", "stream"):
                     continue
                 if isinstance(c, tuple) and c[0] == "var":
@@ -318,7 +339,7 @@ class DiagAnalysis:
                     if self._is_fail_const(v, vkind(n["d"])):
                         pts.append((n, "fail"))
                     elif is_call(init) and init.get("k") != "CXXConstructExpr":
-                        pts.append((n, ("call", init)))
+                        pts.append((n, ("call", init, self._excluded_values(f, n["d"]))))
                 if n.get("k") == "BinaryOperator" and n.get("op") == "=" and strip_all(n["c"][0]).get("d") in ret_vars:
                     rhs = strip_all(n["c"][1])
                     v = folded(rhs)
@@ -422,7 +443,7 @@ class DiagAnalysis:
             return st
         return PathStates(f, "N", elem_tf, edge_tf, guards=g), errs
 
-    def _classify(self, f, mode):
+    def _classify(self, f, mode, ignore=frozenset()):
         kind = self.failure_kind(f)
         if kind is None:
             return (True, "no failure value")
@@ -434,7 +455,7 @@ class DiagAnalysis:
             return (False, "cannot analyse %s: %s" % (f.qn, e))
         good = {"E"} if mode == "diag" else {"E", "S"}
         calls_getopt = any(n.get("k") == "CallExpr" and notpl(n.get("q") or "") in ("getopt_long", "getopt") for n in f.walk())
-        for node, how in self.failure_points(f, kind):
+        for node, how in self.failure_points(f, kind, ignore):
             st = ps.before(node)
             if st is None:
                 continue
@@ -450,13 +471,13 @@ class DiagAnalysis:
             if isinstance(how, tuple) and how[0] == "call":
                 if st <= good:
                     continue
-                c = self.covered_call(f, how[1], mode, errs)
+                c = self.covered_call(f, how[1], mode, errs, how[2] if len(how) > 2 else frozenset())
                 if c == "E" or (c == "S" and mode == "errset"):
                     continue
                 ts = self.callee_targets(f, how[1])
                 inner = ""
                 if ts:
-                    _, inner = self.classify(ts[0], "diag")
+                    _, inner = self.classify(ts[0], "diag", how[2] if len(how) > 2 else frozenset())
                 return (False, "%s returns the result of %s (%s), which can fail without a diagnostic%s" %
                         (f.qn, notpl(how[1].get("q") or show(how[1])[:30]), f.loc(node), (": " + inner) if inner else ""))
             if isinstance(how, tuple) and how[0] == "param":
